@@ -81,11 +81,19 @@ fn one_case(ctx: &WorkerCtx, rep: &mut WorkerReport, case_seed: u64, boundary: b
     let mut uniq = 0u64;
     for i in 0..pairs {
         uniq += 1;
-        let pick = if base > 0 && (bed.d.next_height() == act || rng.chance(1, 2)) { 14 } else { rng.below(15) };
+        let pick = if base > 0 && (bed.d.next_height() == act || rng.chance(1, 2)) { 14 } else { rng.below(18) };
         let (name, to, data): (&str, Option<String>, Vec<u8>) = match pick {
             // a precompile that exists from Prague on (BLS12-381 G1ADD of two points at infinity):
             // the answer tells which rule set ran the code
             14 => ("rule-set-probe", Some(tool.clone()), asm::tool_call(asm::OP_STATIC, &[asm::word_addr(&{ let mut a = [0u8; 20]; a[19] = 0x0b; a })], &[0u8; 256])),
+            // deployments around the code-size limits (EIP-170: 24576 bytes of runtime, EIP-3860: 49152 of init code)
+            15 => ("deploy-runtime-at-limit", None, vec![0x61, 0x60, 0x00, 0x60, 0x00, 0xf3]),
+            16 => ("deploy-runtime-over-limit", None, vec![0x61, 0x60, 0x01, 0x60, 0x00, 0xf3]),
+            17 => ("deploy-initcode-over-limit", None, {
+                let mut v = vec![0x60, 0x01, 0x60, 0x00, 0xf3];
+                v.resize(49153, 0);
+                v
+            }),
             12 => ("number-blockhash", Some(numhash.clone()), vec![]),
             13 => ("deploy-number-stamped", None, asm::number_stamped_init()),
             0 => ("inc", Some(tool.clone()), asm::tool_call(asm::OP_INC, &[asm::word_u64(rng.range(1, 3))], &[])),
@@ -102,7 +110,9 @@ fn one_case(ctx: &WorkerCtx, rep: &mut WorkerReport, case_seed: u64, boundary: b
             _ => ("deploy-garbage", None, rng.bytes(40)),
         };
         let signed = i % 3 == 2;
-        let from = if signed { hist::addr_hex(&signer.addr) } else { sender.clone() };
+        // every fourth inscription pair comes from a sender the chain has never seen (nonce 0)
+        let this_pk = if !signed && i % 4 == 1 { format!("5120{:056x}{:08x}", case_seed as u128, i) } else { sender_pk.clone() };
+        let from = if signed { hist::addr_hex(&signer.addr) } else { hist::addr_hex(&hist::pk_address(&this_pk)) };
         let mut call = serde_json::Map::new();
         call.insert("from".into(), json!(from));
         if let Some(t) = &to {
@@ -124,9 +134,9 @@ fn one_case(ctx: &WorkerCtx, rep: &mut WorkerReport, case_seed: u64, boundary: b
             let raw = signer.sign(Some(chain), nonce_before, to.as_ref().map(|t| hist::parse_addr(t)), &data);
             bed.d.exec(Op::Transact { raw: format!("0x{}", raw), enc: Enc::Hex, ctx: Ctx { ts, hash: hash.clone(), idx: 0 }, iid, len: 1_000_000, txid: hist::ZERO_HASH.into() })
         } else if let Some(t) = &to {
-            bed.d.exec(Op::Call { pk: sender_pk.clone(), target: Target::Addr(t.clone()), data: Some(hist::hx(&data)), enc: Enc::Hex, ctx: Ctx { ts, hash: hash.clone(), idx: 0 }, iid, len: 1_000_000, txid: hist::ZERO_HASH.into() })
+            bed.d.exec(Op::Call { pk: this_pk.clone(), target: Target::Addr(t.clone()), data: Some(hist::hx(&data)), enc: Enc::Hex, ctx: Ctx { ts, hash: hash.clone(), idx: 0 }, iid, len: 1_000_000, txid: hist::ZERO_HASH.into() })
         } else {
-            bed.d.exec(Op::Deploy { pk: sender_pk.clone(), data: hist::hx(&data), enc: Enc::Hex, ctx: Ctx { ts, hash: hash.clone(), idx: 0 }, iid, len: 1_000_000, txid: hist::ZERO_HASH.into() })
+            bed.d.exec(Op::Deploy { pk: this_pk.clone(), data: hist::hx(&data), enc: Enc::Hex, ctx: Ctx { ts, hash: hash.clone(), idx: 0 }, iid, len: 1_000_000, txid: hist::ZERO_HASH.into() })
         };
         let n = bed.d.ntx;
         bed.d.exec(Op::Finalise { ts, hash, count: n });
@@ -153,7 +163,7 @@ fn one_case(ctx: &WorkerCtx, rep: &mut WorkerReport, case_seed: u64, boundary: b
                         json!({"case_seed": case_seed, "network": net, "simulated_code": sim_out, "installed_code": code_s, "address": addr, "address_from_nonce": want_addr}));
                     break;
                 }
-                rep.nontrivial(format!("creation:{}:{}", signed, nonce_before.min(3)));
+                rep.nontrivial(format!("creation:{}:{}:{}", signed, nonce_before.min(3), name));
             }
         } else if traces {
             let out = bed.trace_output(&rc).unwrap_or_default().to_lowercase();
